@@ -67,6 +67,9 @@ AltMsgs(ll, gOld, gNew, prev, fns, cur) ==
   \o (IF prev.t.alt /\ ~cur.t.alt /\ Len(fns) = 1 /\ IsSwitch(fns[1]) /\ gOld.snap # NoLine /\ ~gOld.snapResized
          /\ ~SamePrimary(cur.t.buf.lines, gOld.snap.c, cur.t.lim)
       THEN <<Msg("FAIL C16", ll, "primary screen differs after leaving the alternate screen")>> ELSE <<>>)
+  \o (IF prev.t.alt /\ ~cur.t.alt /\ Len(fns) = 1 /\ IsSwitch(fns[1]) /\ gOld.snap # NoLine /\ gOld.snapResized
+         /\ cur.t.lim = -1 /\ ~LinesPreserved(gOld.snap.c, cur.t.buf.lines)
+      THEN <<Msg("FAIL C16", ll, "primary text altered by resizes during the excursion")>> ELSE <<>>)
   \o (IF prev.t.alt /\ ~cur.t.alt /\ Len(fns) = 1 /\ fns[1].f = "Decrst" /\ fns[1].a = <<1049>>
          /\ gOld.entry # NoLine /\ ~gOld.snapResized
          /\ <<cur.t.col, cur.t.row, cur.t.pw>> # <<gOld.entry.c[1], gOld.entry.c[2], FALSE>>
@@ -125,7 +128,7 @@ Conformance(ll, what, r, fns, e, own) ==
       leaves == IF okT THEN {} ELSE Leaves(a, b)
       blame ==    (IF leaves # {} THEN own \cup FieldOwners(leaves, cur.t.alt, what = "rs") ELSE {})
               \cup (IF okP THEN {} ELSE {"C03", "C12"})
-              \cup (IF okSb /\ "buf.lines" \notin leaves THEN {} ELSE {"C06", "C14"})
+              \cup (IF what = "rs" \/ (okSb /\ "buf.lines" \notin leaves) THEN {} ELSE {"C06", "C14"})
       detail == " fns=" \o S(FnNames(fns))
                 \o (IF okT THEN "" ELSE " tdiff=" \o S(leaves))
                 \o (IF okP THEN "" ELSE " parser: spec=" \o ToJson(r.vt.p) \o " impl=" \o ToJson(cur.p))
@@ -167,6 +170,8 @@ Handle(ll, e) ==
                        /\ ~StepOK(prev.t, fns[1], cur.t, e.ch, IF e.consumed THEN Drained(e.dr) ELSE Unread)
                      THEN <<Msg("FAIL " \o StepProp(prev.t, fns[1]), ll, "declarative step predicate fails for " \o ToJson(fns[1]))>> ELSE <<>>)
                  \o AltMsgs(ll, gh[s], g2, prev, fns, cur) \o AltEntryMsgs(ll, prev, fns, cur)
+                 \o (IF k = "rs" /\ ~cur.t.alt /\ cur.t.lim = -1 /\ ~ResizeTextOK(prev.t, cur.t)
+                     THEN <<Msg("FAIL C10", ll, "resize altered the logical text or lost the cursor's place: cursor " \o S(CursorLogical(prev.t)) \o " -> " \o S(CursorLogical(cur.t)))>> ELSE <<>>)
                  \o (IF k = "rs" /\ (e.cols # cur.t.cols \/ e.rows # cur.t.rows)
                      THEN <<Msg("FAIL C02", ll, "size() does not report the requested geometry")>> ELSE <<>>)]
   ELSE IF k = "dump" THEN
